@@ -7,7 +7,7 @@ from ..cfg import CFG
 from ..loops import dotted
 from ..nf import NF, Scope, Poly, parse_expr
 from ..repo import Repo, loc, short, AnalysisError, positional_params, param_names, bind_call
-from ..sem import guard_literals, spec, on_every_path_once, stmt_calls, arg_of
+from ..sem import guard_literals, spec, on_every_path_once, stmt_calls, arg_of, recv_canon
 
 EXPLANATION = (
     "The checker decides the premises of the ring-buffer induction for ReplayBuffer.add_sample (inherited by LAP / PrioritizedReplayBuffer): "
@@ -92,6 +92,12 @@ def _ring(ck, repo, nf):
         for n, t in stores:
             idx = nf.poly(t.slice, Scope(None, mi, {}, site), None).canon()
             before = cfg.paths_avoiding(a.id, n.id, set()) is None
+            if isinstance(t.slice, ast.Name):
+                # a local that holds the write position: it must have been read before the advance
+                ds = cfg.defs_of(n.id, t.slice.id)
+                if len(ds) == 1 and ds[0].kind == "assign" and dotted(ds[0].value) == "self.insert_idx":
+                    idx = "self.insert_idx"
+                    before = cfg.paths_avoiding(a.id, ds[0].node, set()) is None
             ok = idx == "self.insert_idx" and before
             ck.ob("R1-ring-law", site, f"store-at-insert-idx:{short(t.value.slice, 20)}", ok, f"`{short(n.ast, 60)}`",
                   "" if ok else ("the field is stored at a different index than the write position" if idx != "self.insert_idx" else "the store happens after the write position advanced: the transition is split over two slots"), loc(mi, n.ast))
@@ -136,9 +142,33 @@ def _ring(ck, repo, nf):
     EMPTY = {spec(nf, mi, "self.current_len == 0"), spec(nf, mi, "not self.current_len"), spec(nf, mi, "len(self) == 0"), spec(nf, mi, "self.current_len < 1"), "not(self.current_len)"}
     for acfg, an, s, n in alloc_ctx:
         g = guard_literals(nf, cfg, mi, n.id)
+        if acfg is not cfg:
+            g = g + [x for x in guard_literals(nf, acfg, mi, an.id) if x not in g]   # guards inside the allocation helper count as well
         v = nf.poly(s.value, Scope(None, mi, {}, site), None).canon()
         okg = any(x in EMPTY for x in g)
-        okv = v == "empty((self.buffer_size) + v.shape, dtype=self.buffer[k].dtype)"
+        # value: np.empty / np.zeros of shape (buffer_size,) + <shape of the provided value>, dtype of the configured storage of the same key
+        call = s.value
+        okv = False
+        if isinstance(call, ast.Call) and dotted(call.func) in ("np.empty", "numpy.empty", "np.zeros", "numpy.zeros", "np.empty_like") and call.args:
+            asc = Scope(acfg, mi, {}, site)
+            shp = nf.poly(call.args[0], asc, an.id)
+            dt = next((k_.value for k_ in call.keywords if k_.arg == "dtype"), call.args[1] if len(call.args) > 1 else None)
+            dts = nf.poly(dt, asc, an.id).canon() if dt is not None else ""
+            key_txt = nf.poly(s.targets[0].slice, asc, an.id).canon()
+            terms = sorted(a_ for a_ in shp.atoms())
+            lead = [a_ for a_ in terms if a_.startswith("(")]
+            tail = [a_ for a_ in terms if a_.endswith(".shape")]
+            ok_shape = len(shp.terms) == 2 and len(lead) == 1 and lead[0] == "(self.buffer_size)" and len(tail) == 1
+            ok_dtype = dts == f"self.buffer[{key_txt}].dtype"
+            okv = ok_shape and ok_dtype
+            if not okv and len(shp.terms) == 2 and len(lead) == 1 and len(tail) == 1 and not ok_shape:
+                pass   # wrong leading dimension: violation below
+            elif not okv and ok_shape and dts and not ok_dtype:
+                pass   # wrong dtype: violation below
+            elif not okv:
+                raise AnalysisError(f"{site}: allocation `{short(s, 80)}` not recognised")
+        else:
+            raise AnalysisError(f"{site}: allocation `{short(s, 80)}` not recognised")
         why = ""
         if not okg:
             if any("insert_idx" in x for x in g) or not g:
@@ -315,7 +345,7 @@ def _multitask(ck, repo, nf):
     sets = [n for n in cfg.nodes if n.kind == "stmt" and isinstance(n.ast, ast.Assign) and dotted(n.ast.targets[0]) == SEL]
     ck.need(len(sets) >= 1, f"{cq}.select_task: no assignment of selected_task")
     for st in sets:
-        g = set(guard_literals(nf, cfg, mi, st.id))
+        g = set(guard_literals(nf, cfg, mi, st.id, inline=True))
         val = nf.poly(st.ast.value, Scope(cfg, mi, {}, cq), st.id).canon()
         lower = {spec(nf, mi, f"0 <= {tid}"), spec(nf, mi, f"-1 < {tid}")}
         upper = {spec(nf, mi, f"{tid} < len(self.buffers)"), spec(nf, mi, f"{tid} <= len(self.buffers) - 1")}
@@ -325,10 +355,15 @@ def _multitask(ck, repo, nf):
     # sample_batch: one member among the active ones
     fn = _m(repo, cq, "sample_batch")
     cfg = nf.cfg_of(fn)
-    samples = stmt_calls(cfg, lambda c: isinstance(c.func, ast.Attribute) and c.func.attr == "sample_batch" and isinstance(c.func.value, ast.Subscript) and dotted(c.func.value.value) == "self.buffers")
+    samples = [(n_, c_) for n_, c_ in stmt_calls(cfg, lambda c: isinstance(c.func, ast.Attribute) and c.func.attr == "sample_batch") if recv_canon(nf, cfg, mi, n_, c_).startswith("self.buffers[")]
     ck.need(len(samples) == 1, f"{cq}.sample_batch: expected one member sample_batch call")
     n, c = samples[0]
-    ixe = c.func.value.slice
+    rv_ = c.func.value
+    if isinstance(rv_, ast.Name):
+        ds_ = cfg.defs_of(n.id, rv_.id)
+        ck.need(len(ds_) == 1 and ds_[0].kind == "assign" and isinstance(ds_[0].value, ast.Subscript), f"{cq}.sample_batch: member alias `{rv_.id}` not recognised")
+        rv_ = ds_[0].value
+    ixe = rv_.slice
     # the index value: through attribute store / local
     src = None
     if isinstance(ixe, ast.Attribute) and dotted(ixe.value) == "self":
